@@ -370,6 +370,15 @@ func (e *engine) load() error {
 	return nil
 }
 
+func (e *engine) lookupFunc(pkg, name string) *ssa.Function {
+	for _, p := range e.prog.AllPackages() {
+		if p.Pkg.Path() == pkg {
+			return p.Func(name)
+		}
+	}
+	return nil
+}
+
 // calleeExists checks that a redirect source names a real function (staleness guard).
 func (e *engine) calleeExists(name string) bool {
 	for _, p := range e.prog.AllPackages() {
